@@ -5,9 +5,12 @@ Request.writeTo onto a detsim.net.SimTransport whose send buffer has a small,
 tape-chosen high-water mark (so the transport pauses/resumes the body producer).
 The body comes from a scripted IBodyProducer (known or unknown length) that
 writes tape-chosen pieces synchronously inside startProducing and/or later at
-tape-chosen steps, honours pause/resume, and ends by finishing, failing, writing
-too few / too many bytes, or being cancelled (stopWriting / Deferred.cancel) at
-any step.  Methods, targets and header sets are drawn from grammars that include
+tape-chosen steps (small pieces of 0..300 bytes; in a share BIG_P of the runs one
+of the pieces is large: a size at, one below, one above, a little above or 1.5x a
+power of two between 1 KiB and 256 KiB, i.e. up to 384 KiB handed over in ONE
+consumer.write(), its content different in every KiB), honours pause/resume,
+and ends by finishing, failing, writing too few / too many bytes, or being
+cancelled (stopWriting / Deferred.cancel) at any step.  Methods, targets and header sets are drawn from grammars that include
 invalid bytes in method/target.
 
 Oracle (independent parser = h11 in server role, plus raw-byte assertions):
@@ -49,6 +52,7 @@ LEVEL = "exploration"
 TECHNIQUE = ("deterministic simulation: real Request.writeTo with a scripted asynchronous IBodyProducer under simulated transport "
              "back-pressure/cancel; bytes parsed by h11 (server role) against the intended request")
 QUICK_RUNS = 250000
+BIG_P = 0.01    # share of the body-carrying runs in which one piece of the body is large (1 KiB .. 384 KiB)
 TWIN_P = 0.08   # this share of the runs drives two independent instances of the scenario one after the other (detsim.runner._run_scenario)
 BATCH = 1000
 RUN_WALL_LIMIT_S = 120   # runs take milliseconds; generous so that an overloaded host is not mistaken for a hang
@@ -57,10 +61,15 @@ COMPONENTS = {"real": ["twisted.web._newclient.Request (writeTo, _writeHeaders, 
                        "twisted.web._newclient._ensureValidMethod/_ensureValidURI", "twisted.web.http_headers.Headers"],
               "stub": ["TCP transport with send-buffer high-water mark (detsim.net.SimTransport)", "scripted IBodyProducer", "h11 as the independent parser"]}
 RULE = ("run = one request: drawn method/target (valid or with one invalid byte), header set, body kind (none/known/unknown length), producer script "
-        "(sync/async pieces, end = finish/fail/short/excess/cancel), transport hwm and drain schedule; non-trivial = a body producer ran and "
+        "(sync/async pieces of 0..300 bytes, in 1% of the runs plus ONE large piece of 2^k-1 / 2^k / 2^k+1 / 2^k+few / 1.5*2^k bytes, k=10..18, "
+        "written in a single consumer.write() synchronously or later, for known and unknown length; end = finish/fail/short/excess/cancel), "
+        "transport hwm and drain schedule; non-trivial = a body producer ran and "
         "(it was paused by the transport, or produced asynchronously, or ended abnormally) or the method/target was invalid")
 ASSUMPTIONS = ["header names are tokens and values contain no CR/LF/NUL (the statement quantifies over valid header sets); exactly one Host header",
-               "the producer honours pauseProducing (does not write while paused)"]
+               "the producer honours pauseProducing (does not write while paused)",
+               "how a producer splits its body into write() calls is its own business: any single write of up to a few hundred KiB is a valid delivery "
+               "(the statement quantifies over bodies, not over deliveries), and the wire may split or coalesce it into chunks as it likes as long as "
+               "the independent parser reads the same body back"]
 
 TOKEN = b"!#$%&'*+-.^_`|~0123456789ABCDEFGHIJKLMNOPQRSTUVWXYZabcdefghijklmnopqrstuvwxyz"
 BAD_METHOD_BYTES = [b" ", b"\r", b"\n", b"\x00", b"\x7f", b"\x80", b"\xff", b"(", b")", b",", b"/", b":", b";", b"<", b"=", b">", b"?", b"@",
@@ -92,6 +101,8 @@ class Producer:
         self.stopped = 0
         self.cancelled = 0
         self.written = []          # pieces whose write() returned normally
+        self.big = None            # the one large piece of this run, if any
+        self.in_start = False
         self.write_raised = []
         self.log = []
 
@@ -100,11 +111,13 @@ class Producer:
         self.consumer = consumer
         d = self.d = defer.Deferred(self._cancel)
         left = []
+        self.in_start = True
         for piece in self.sync_pieces:
             if self.paused or self.stopped or left:
                 left.append(piece)      # the transport paused us mid-way: the rest is produced later
                 continue
             self.write(piece)
+        self.in_start = False
         self.deferred_pieces[:0] = left
         if self.sync_end is not None and not self.deferred_pieces:
             self.end(self.sync_end)
@@ -112,6 +125,10 @@ class Producer:
 
     def write(self, piece):
         self.sim.event("produce", len(piece))
+        if piece is self.big:
+            n = len(piece)
+            self.sim.probe("large_piece_%s_length_%s" % ("unknown" if self.length is UNKNOWN_LENGTH else "known", "sync" if self.in_start else "later"))
+            self.sim.probe("large_piece_" + ("upto_4KiB" if n <= 4096 else "upto_64KiB" if n <= 65536 else "above_64KiB"))
         try:
             self.consumer.write(piece)
         except _newclient.ExcessWrite:
@@ -173,6 +190,49 @@ def gen_target(sim):
     return u
 
 
+_allocator_tuned = []
+
+
+def tune_allocator():
+    """Performance only (no effect on what a run does): with glibc's default settings every buffer above 128 KiB is mmap()ed and
+    unmapped again and the heap top is trimmed after each run, which costs ~10 ms of page faults per large piece on the
+    verification host; raise the thresholds once per process so that large buffers are recycled from the heap."""
+    if _allocator_tuned:
+        return
+    _allocator_tuned.append(True)
+    try:
+        import ctypes
+        libc = ctypes.CDLL(None)
+        libc.mallopt(-3, 32 << 20)    # M_MMAP_THRESHOLD
+        libc.mallopt(-1, 256 << 20)   # M_TRIM_THRESHOLD
+        libc.mallopt(-2, 8 << 20)     # M_TOP_PAD
+    except Exception:
+        pass
+
+
+def big_piece(sim, ln):
+    """ln bytes that are cheap to draw yet differ from one KiB to the next (every KiB starts with its own offset in hex), so that
+    a slice taken at the wrong offset, repeated or left out changes the body; the filler contains CR LF and digits, so that a
+    parser which lost the framing finds things that look like chunk headers."""
+    tune_allocator()
+    unit = sim.draw_bytes(5, b"ab\r\n0")
+    buf = bytearray((unit * (ln // 5 + 1))[:ln])
+    for off in range(0, ln - 8, 1024):
+        buf[off:off + 8] = b"%08x" % off
+    return bytes(buf)
+
+
+def brief(b):
+    """repr of a byte string for a violation detail (large bodies abbreviated)."""
+    return repr(b) if len(b) <= 200 else "%r...%r (%d bytes)" % (b[:80], b[-40:], len(b))
+
+
+def differ(a, b):
+    n = min(len(a), len(b))
+    i = next((i for i in range(n) if a[i] != b[i]), n)
+    return "first difference at offset %d" % i
+
+
 def h11_parse(wire):
     """Feed the wire to an h11 server; return (request|None, body, complete, error, trailing)."""
     conn = h11.Connection(h11.SERVER, max_incomplete_event_size=1 << 20)
@@ -227,6 +287,17 @@ def run(sim):
         for _ in range(npieces):
             ln = sim.draw_weighted([(1, 2), (3, 3), (10, 3), (50, 2), (300, 1), (0, 1)], "plen")
             body_pieces.append(sim.draw_bytes(ln, b"ab\r\n0;\x00\xff") if ln <= 10 else (sim.draw_bytes(5, b"ab\r\n0") * (ln // 5 + 1))[:ln])
+        # at most one large piece per run (so that runs stay short): a size at, just below, just above or well above a power of two,
+        # from 1 KiB up to a few hundred KiB - the sizes at which buffers, slices and size fields of the code under test change regime
+        big = None
+        if sim.draw_bool(BIG_P, "big_piece"):
+            base = 1 << sim.draw_int(10, 18, "big_pow")
+            delta = sim.draw_choice(["exact", "plus1", "minus1", "plus_few", "plus_half"], "big_delta")
+            ln = base + {"exact": 0, "plus1": 1, "minus1": -1, "plus_few": 0, "plus_half": base >> 1}[delta]
+            if delta == "plus_few":
+                ln += sim.draw_int(2, 300, "big_few")
+            big = big_piece(sim, ln)
+            body_pieces.insert(sim.draw_int(0, len(body_pieces), "big_pos"), big)
         total = sum(len(p) for p in body_pieces)
         if kind == "known":
             end = sim.draw_weighted([("finish", 6), ("fail", 2), ("short", 1), ("excess", 1), ("cancel", 2)], "end")
@@ -245,6 +316,7 @@ def run(sim):
         if avoid_empty:
             body_pieces = [p for p in body_pieces if p]
         prod = Producer(sim, length)
+        prod.big = big
         nsync = sim.draw_int(0, len(body_pieces), "nsync")
         prod.sync_pieces = body_pieces[:nsync]
         prod.deferred_pieces = list(body_pieces[nsync:])
@@ -261,7 +333,8 @@ def run(sim):
         headers.insert(sim.draw_int(0, len(headers), "app_cl_pos"), (sim.draw_choice([b"Content-Length", b"content-length"], "app_cl_name"), app_cl))
         sim.probe("application_supplied_content_length")
     sim.config = {"method_valid": mvalid, "target_valid": tvalid, "body": kind, "end": end, "hwm": hwm, "persistent": persistent,
-                  "npieces": len(body_pieces), "empty_pieces": sum(1 for p in body_pieces if not p)}
+                  "npieces": len(body_pieces), "empty_pieces": sum(1 for p in body_pieces if not p),
+                  "large_piece": len(prod.big) if prod is not None and prod.big is not None else 0}
     sim.event("request", method, target, kind, end, "hwm=%s" % hwm, "late" if late_corrupt else "ctor")
     for n, v in headers:
         sim.event("header", n, v)
@@ -415,13 +488,13 @@ def run(sim):
         # the Deferred need not fire; if it did, not with success unless the body was complete
         sim.check("cancel-reaches-producer", prod.stopped >= 1 or prod.cancelled >= 1, cancelled[0], "producer neither stopped nor cancelled after %s" % cancelled[0])
         sim.check("cancelled-never-succeeds", not results or isinstance(res, Failure), cancelled[0], lambda: "results %s" % show(results))
-        sim.check("cancelled-body-is-prefix", sent.startswith(body), kind, "wire body %r not a prefix of produced %r" % (body, sent))
+        sim.check("cancelled-body-is-prefix", sent.startswith(body), kind, lambda: "wire body %s not a prefix of produced %s (%s)" % (brief(body), brief(sent), differ(body, sent)))
         if kind == "unknown":
             sim.check("cancelled-body-not-terminated", not complete, kind, lambda: "cancelled unknown-length body was terminated: %r" % wire[-40:])
     elif end == "finish" and (kind == "unknown" or prod.length == len(b"".join(body_pieces))):
         sim.check("success-fires-none", results == [None], kind, lambda: "results %s" % show(results))
         sim.check("message-complete", complete, kind, lambda: "h11 saw no end of message; wire tail %r" % wire[-40:])
-        sim.check("body-equal", body == sent, kind, lambda: "parsed body %r intended %r" % (body, sent))
+        sim.check("body-equal", body == sent, kind, lambda: "parsed body %s intended %s (%s)" % (brief(body), brief(sent), differ(body, sent)))
         sim.check("nothing-trailing", trailing == b"", kind, lambda: "bytes after the request: %r" % trailing[:80])
     elif end == "fail":
         sim.check("producer-failure-propagates", len(results) == 1 and isinstance(res, Failure) and res.check(BoomError) is not None, kind,
@@ -429,12 +502,12 @@ def run(sim):
         if kind == "unknown":
             sim.check("failed-body-not-terminated", not complete, kind, lambda: "failed unknown-length body was terminated: %r" % wire[-40:])
         else:
-            sim.check("body-prefix", sent.startswith(body), kind, "wire body %r not a prefix of produced %r" % (body, sent))
+            sim.check("body-prefix", sent.startswith(body), kind, lambda: "wire body %s not a prefix of produced %s (%s)" % (brief(body), brief(sent), differ(body, sent)))
     else:  # short / excess (known length only)
         sim.check("wrong-length-reported", len(results) == 1 and isinstance(res, Failure) and res.check(_newclient.WrongBodyLength) is not None,
                   end, lambda: "results %s (length=%r produced=%d)" % (show(results), prod.length, len(b"".join(body_pieces))))
         sim.check("no-extra-bytes", len(body) <= prod.length and b"".join(body_pieces).startswith(body) and trailing == b"", end,
-                  lambda: "wire body %r (declared %d) produced %r trailing %r" % (body, prod.length, b"".join(body_pieces), trailing))
+                  lambda: "wire body %s (declared %d) produced %s trailing %r" % (brief(body), prod.length, brief(b"".join(body_pieces)), trailing[:80]))
         if end == "excess":
             sim.check("excess-stops-producer", prod.stopped >= 1, end, "stopProducing not called on excess write")
     if results:
@@ -503,4 +576,10 @@ MUTANTS = [
     "_newclient.py _writeHeaders: Connection: close condition inverted -> caught (connection-header:head)",
     "_newclient.py ChunkedEncoder.write: chunk size in decimal -> caught (parses / message-complete)",
     "_newclient.py _writeToBodyProducerContentLength: producer left registered -> caught (producer-unregistered:known)",
+    "(large-piece family, round 4)",
+    "_newclient.py ChunkedEncoder.write: a write above 64 KiB emitted as several chunks each announcing the size of the whole write -> caught (parses:unknown)",
+    "_newclient.py ChunkedEncoder.write: chunk size masked to 16 bits -> caught (parses:unknown)",
+    "_newclient.py ChunkedEncoder.write: chunk size line keeps only its last 4 hex digits -> caught (parses:unknown)",
+    "_newclient.py ChunkedEncoder.write: one byte lost at offset 32 KiB of a chunk -> caught (parses:unknown)",
+    "_newclient.py LengthEnforcingConsumer.write: at most 128 KiB of one write forwarded -> caught (message-complete:known / body-prefix:known / no-extra-bytes:short)",
 ]
